@@ -339,7 +339,7 @@ func runArgs(args []string) {
 					continue
 				}
 				logf.Write(M{"id": r.ID, "src": r.Src, "how": r.How, "engine": engine, "codec": e.name,
-					"t": r.T, "rt": projType(tv.StaticType, nil), "rtid": tv.StaticType.ID()})
+					"t": r.T, "rt": expandSiblingRec(projType(tv.StaticType, nil)), "rtid": tv.StaticType.ID()})
 				inc("logged")
 				if passed != nil {
 					inc("returns_roundtripped")
